@@ -150,10 +150,18 @@ func StringKeyedMap(data any) (map[string]any, bool) {
 	return m, true
 }
 
+// structAddr identifies a struct that is being, or has been, converted: its address
+// and its type. The address alone does not: a struct and its first field share one
+// (o and &o.Inner, a.C and &a.C.B are pointers of two types to one address).
+type structAddr struct {
+	ptr uintptr
+	typ reflect.Type
+}
+
 // StructToMap converts a struct to a map using JSON tags for keys.
 // Nested structs are recursively converted to maps as well.
 func StructToMap(data any) map[string]any {
-	return structToMap(data, map[uintptr]bool{}, map[uintptr]map[string]any{})
+	return structToMap(data, map[structAddr]bool{}, map[structAddr]map[string]any{})
 }
 
 // structToMap converts a struct to a map. The visiting set holds the pointers on the
@@ -162,7 +170,7 @@ func StructToMap(data any) map[string]any {
 // map holds what has been converted already: a struct that is reached over several
 // paths (two fields pointing at one node) is converted once, not once per path -
 // a chain of n such nodes has 2^n paths.
-func structToMap(data any, visiting map[uintptr]bool, done map[uintptr]map[string]any) map[string]any {
+func structToMap(data any, visiting map[structAddr]bool, done map[structAddr]map[string]any) map[string]any {
 	result := make(map[string]any)
 	if data == nil {
 		return result
@@ -174,7 +182,7 @@ func structToMap(data any, visiting map[uintptr]bool, done map[uintptr]map[strin
 		if rv.IsNil() {
 			return result
 		}
-		ptr := rv.Pointer()
+		ptr := structAddr{rv.Pointer(), rv.Type()}
 		if visiting[ptr] {
 			return result
 		}
